@@ -5,7 +5,7 @@ discharged).  An alternative lists labelled contract clauses on real functions, 
 Kani harnesses, and optionally `body_of` (panic-freedom obligations inside function bodies).
 ('fn', '*') = every labelled clause of fn except the alternative's `exclude` labels.
 """
-G = "group::"; K = "keypair::"; T = "tripledh::"; O = "opaque::"; M = "messages::"; E = "envelope::"; ER = "errors::"
+S = "serialization::"; G = "group::"; K = "keypair::"; T = "tripledh::"; O = "opaque::"; M = "messages::"; E = "envelope::"; ER = "errors::"
 
 # labels that state a REJECTION / error behaviour (not needed for "honest runs succeed" and value properties)
 SOUND = {"sound", "sound_env", "sound_mac", "errkind", "strict", "nonid", "ids_err", "ctx_err", "mode_err", "ksf_err", "pw_len", "len_err",
@@ -13,6 +13,7 @@ SOUND = {"sound", "sound_env", "sound_mac", "errkind", "strict", "nonid", "ids_e
 
 ALL_FNS = [
     ER + "InternalError::into_custom", ER + "ProtocolError::into_custom", ER + "check_slice_size", ER + "check_slice_size_atleast",
+    S + "Input::from", S + "Input::from_owned", S + "Input::from_label", S + "Input::iter", S + "Input::to_array_2", S + "Input::to_array_3",
     "ksf::Identity::hash", G + "i2osp_2", G + "KeGroup::derive_auth_keypair",
     K + "KeyPair::public", K + "KeyPair::private", K + "KeyPair::from_private_key", K + "KeyPair::from_private_key_slice", K + "KeyPair::generate_random",
     K + "PrivateKey::diffie_hellman", K + "PrivateKey::public_key", K + "PrivateKey::serialize", K + "PrivateKey::deserialize", K + "PublicKey::deserialize", K + "PublicKey::serialize",
@@ -49,7 +50,12 @@ VACUITY_THEOREMS = {
     "thm_c08_fake_vs_real", "thm_c13_server_registration", "thm_c13_client_registration", "thm_c13_client_login", "thm_c13_server_setup", "thm_c14_blind_independent",
     "thm_c15_default_equiv", "thm_c15_ksf_bound", "thm_c16_separated", "thm_c16_label_separation", "thm_c17_server_login_deterministic", "thm_c18_transparent",
 }
-KANI_BOUNDS = {}
+KANI_BOUNDS = {
+    "input_from_iter_bounded": "payload <= 6 bytes (unwind 10); cross-check of rule R5 (iterator order == concatenation) on the real iterator, the function itself is proved by Verus",
+    "input_owned_iter_bounded": "payload <= 6 bytes (unwind 10); cross-check of rule R5, the function itself is proved by Verus",
+    "input_label_arrays_bounded": "label pieces <= 6 bytes (unwind 10); cross-check of rule R5, the function itself is proved by Verus",
+    "chain_iter_order_bounded": "<= 3 chunks of <= 2 bytes (unwind 5): UpdateExt::chain_iter / MacExt::update_iter feed chunks in iteration order",
+}
 
 IDEAL = "idealisation hypotheses are explicit `requires` of the theorems, never axioms: "
 A_NEGL = "negligible-probability exclusions (preconditions): per-credential OPRF key != 1 (else the reflected-value check fires), DeriveDiffieHellmanKeyPair does not exhaust its 256 counters, the KSF succeeds, the OPRF accepts the password"
@@ -117,7 +123,7 @@ PROPS["C04"] = {
 PROPS["C05"] = {
     "alternatives": [{
         "name": "framed-binding",
-        "clauses": [(O + "bytestrings_from_identifiers", "*"), (E + "construct_aad", "*"), (E + "Envelope::open", "sound"), (E + "Envelope::open_raw", "sound"), (T + "TripleDh::generate_ke2", "ctx_err"), (T + "TripleDh::generate_ke3", "sound"), (T + "TripleDh::generate_ke3", "ctx_err"), (O + "oprf_key_from_seed", "*"), (O + "ServerRegistration::start", "eval"), (O + "ServerLogin::start", "eval"), (O + "ClientLogin::finish", "sound_env"), (O + "ClientLogin::finish", "sound_mac")],
+        "clauses": [(S + "Input::from", "*"), (S + "Input::from_owned", "*"), (S + "Input::iter", "*"), (O + "bytestrings_from_identifiers", "*"), (E + "construct_aad", "*"), (E + "Envelope::open", "sound"), (E + "Envelope::open_raw", "sound"), (T + "TripleDh::generate_ke2", "ctx_err"), (T + "TripleDh::generate_ke3", "sound"), (T + "TripleDh::generate_ke3", "ctx_err"), (O + "oprf_key_from_seed", "*"), (O + "ServerRegistration::start", "eval"), (O + "ServerLogin::start", "eval"), (O + "ClientLogin::finish", "sound_env"), (O + "ClientLogin::finish", "sound_mac")],
          "supporting": [(E + "Envelope::seal", "rfc"), (E + "Envelope::seal", "ok_iff"), (E + "Envelope::seal_raw", "*"), (E + "Envelope::open", "rfc"), (T + "TripleDh::generate_ke2", "rfc"), (O + "ServerLogin::start", "ke2"), (O + "ServerLogin::start", "mask"), (O + "ClientRegistration::finish", "rfc")],
          "theorems": ["thm_c05_login_binding", "thm_c05_envelope_binding", "thm_transcript_agreement", "lemma_preamble_injective", "lemma_cleartext_injective", "lemma_frame_split", "lemma_fixed_split", "lemma_i2osp2_inj", "lemma_i2osp2"],
         "kani": {"quick": [("leaf", "i2osp_u2_exact"), ("leaf", "i2osp_u1_exact")], "thorough": [("leaf", "input_from_iter_bounded"), ("leaf", "input_owned_iter_bounded"), ("leaf", "input_label_arrays_bounded")]},
@@ -289,6 +295,7 @@ PROPS["C12"] = {
     "alternatives": [{
         "name": "no-panic-obligations",
         "clauses": [(ER + "InternalError::into_custom", "*"), (ER + "ProtocolError::into_custom", "*"), (O + "MaskedResponse::deserialize", "*"), (G + "i2osp_2", "*"), (O + "bytestrings_from_identifiers", "*"),
+                    (S + "Input::from", "*"), (S + "Input::from_owned", "*"), (S + "Input::from_label", "*"), (S + "Input::iter", "*"), (S + "Input::to_array_2", "*"), (S + "Input::to_array_3", "*"),
                     (T + "hkdf_expand_label_extracted", "*"), (T + "TripleDh::generate_ke2", "ctx_err"), (T + "TripleDh::generate_ke3", "ctx_err"), (O + "get_password_derived_key", "len_err"),
                     (K + "KeyPair::generate_random", "*")],
         "body_of": "*",
